@@ -5,6 +5,7 @@ import (
 	"flag"
 	"fmt"
 	"os"
+	"runtime/debug"
 	"strings"
 	"time"
 
@@ -64,6 +65,7 @@ func Main(chk *Check, args []string) int {
 		}
 		return chk.Replay(c, *replay)
 	}
+	debug.SetGCPercent(800) // the checks allocate small short-lived objects in 16 workers: collect less often
 	o := chk.Run(c)
 	e := &ev.Evidence{PropertyID: chk.ID, Tier: *tier, Seed: ev.Seed(), Level: o.Level, Coverage: o.Coverage,
 		Assumptions: o.Assumptions, WallS: time.Since(c.Rep.Start).Seconds(), Violations: len(c.Rep.Violations), KnownFindingsHit: c.Rep.KnownHitList()}
